@@ -92,6 +92,15 @@ func (f *Frame) calleeEnv(fc *FuncContract, callee *ssa.Function, sig *types.Sig
 			}
 		}
 	}
+	if fc != nil && fc.DeclPkg != "" && (pkg == nil || pkg.Pkg.Path() != fc.DeclPkg) {
+		// a contract for a dependency stated in a package's contract file: its names (types,
+		// spec functions) resolve in that package
+		for _, p := range f.eng.Prog.SSA.AllPackages() {
+			if p.Pkg.Path() == fc.DeclPkg {
+				pkg = p
+			}
+		}
+	}
 	env := f.specEnv(st, old, pkg)
 	if callee != nil && callee.Blocks != nil {
 		for i, p := range callee.Params {
@@ -368,7 +377,36 @@ func (env *SpecEnv) eval(e Expr) (sval, error) {
 		if x.Forall {
 			q = "forall"
 		}
-		return sval{t: fmt.Sprintf("(%s (%s) %s)", q, strings.Join(binders, " "), body), sort: "Bool"}, nil
+		out := fmt.Sprintf("(%s (%s) %s)", q, strings.Join(binders, " "), body)
+		if !x.Forall && env.pol == 1 && env.qdepth == 0 && len(x.Vars) == 1 && f.top != nil && len(f.top.loopIdxTerms) > 0 {
+			if srt, _ := specSort(ctx, x.Vars[0].Type); srt == "Int" {
+				// An existential to be proved: the solver has to find the witness by pattern matching,
+				// which fails when the witness is a loop index that no term of the goal mentions. Offer
+				// the loop counters of the function as candidate witnesses: (or P(c1) .. (exists k. P(k)))
+				// is equivalent to the existential.
+				name := x.Vars[0].Name
+				savedV, had := env.vars[name]
+				var alts []string
+				for _, c := range f.top.loopIdxTerms {
+					env.vars[name] = sval{t: c, sort: "Int"}
+					env.qdepth++ // evaluated like a quantifier body: no side facts keyed on the candidate
+					inst, ierr := env.evalBool(x.Body)
+					env.qdepth--
+					if ierr == nil {
+						alts = append(alts, inst)
+					}
+				}
+				if had {
+					env.vars[name] = savedV
+				} else {
+					delete(env.vars, name)
+				}
+				if len(alts) > 0 {
+					out = "(or " + strings.Join(alts, " ") + " " + out + ")"
+				}
+			}
+		}
+		return sval{t: out, sort: "Bool"}, nil
 	case *ESel:
 		return env.evalSel(x)
 	case *EIndex:
@@ -680,6 +718,21 @@ func (env *SpecEnv) evalSel(x *ESel) (sval, error) {
 			}
 		}
 	}
+	// a field of a struct stored in memory (slice element, struct-typed field): read the field's own
+	// cell instead of building the struct value and projecting it (same value; the term has the
+	// shape the code's loads have, so instantiation patterns meet it)
+	if addr, at, ok := env.addrOf(x.X); ok {
+		if st, isStruct := at.Underlying().(*types.Struct); isStruct {
+			if path, ft, ok := findField(st, x.Name); ok {
+				fa := addrPath(addr, path)
+				lv := f.load(env.state(), fa, ft)
+				if nt, isNamed := at.(*types.Named); isNamed && len(path) == 1 && env.qdepth == 0 {
+					f.initOnlyFact(env.state(), addr, nt, path[0], fa, lv, ft)
+				}
+				return env.sv(lv, ft), nil
+			}
+		}
+	}
 	v, err := env.eval(x.X)
 	if err != nil {
 		return sval{}, err
@@ -715,6 +768,71 @@ func (env *SpecEnv) evalSel(x *ESel) (sval, error) {
 		return env.sv("("+si.sels[path[0]]+" "+v.t+")", ft), nil
 	}
 	return sval{}, fmt.Errorf("selector .%s on %s", x.Name, v.typ)
+}
+
+// addrOf: the address of the struct-typed storage location e denotes, when e is an element of a
+// slice of structs (s[i]) or a struct-typed field reached through a pointer (p.f, p.f.g).
+func (env *SpecEnv) addrOf(e Expr) (string, types.Type, bool) {
+	switch x := e.(type) {
+	case *EIndex:
+		if id, ok := x.X.(*EIdent); ok {
+			if _, isVar := env.vars[id.Name]; !isVar {
+				if _, isGhost := ghostHeaps[id.Name]; isGhost {
+					return "", nil, false
+				}
+			}
+		}
+		v, err := env.eval(x.X)
+		if err != nil || v.typ == nil {
+			return "", nil, false
+		}
+		sl, ok := v.typ.Underlying().(*types.Slice)
+		if !ok {
+			return "", nil, false
+		}
+		if _, isStruct := sl.Elem().Underlying().(*types.Struct); !isStruct {
+			return "", nil, false
+		}
+		i, err := env.eval(x.I)
+		if err != nil {
+			return "", nil, false
+		}
+		return fmt.Sprintf("(selem %s %s)", v.t, i.t), sl.Elem(), true
+	case *ESel:
+		if id, ok := x.X.(*EIdent); ok {
+			if _, isVar := env.vars[id.Name]; !isVar {
+				return "", nil, false // package-qualified name
+			}
+		}
+		var baseAddr string
+		var st *types.Struct
+		if a, at, ok := env.addrOf(x.X); ok {
+			s, isStruct := at.Underlying().(*types.Struct)
+			if !isStruct {
+				return "", nil, false
+			}
+			baseAddr, st = a, s
+		} else {
+			v, err := env.eval(x.X)
+			if err != nil || v.typ == nil {
+				return "", nil, false
+			}
+			s, _, ok := derefNamedStruct(v.typ)
+			if !ok {
+				return "", nil, false
+			}
+			baseAddr, st = v.t, s
+		}
+		path, ft, ok := findField(st, x.Name)
+		if !ok {
+			return "", nil, false
+		}
+		if _, isStruct := ft.Underlying().(*types.Struct); !isStruct {
+			return "", nil, false
+		}
+		return addrPath(baseAddr, path), ft, true
+	}
+	return "", nil, false
 }
 
 // findField finds a (possibly promoted) field by name.
